@@ -7,9 +7,14 @@ open SnowModel.Stop SnowModel.Drv
 
 def num (n : Nat) : Json := Json.num (JsonNumber.fromNat n)
 
+/-- `starting_id`: `None` ↦ `null` -/
+def optNum : Option Nat → Json
+  | none => Json.null
+  | some n => num n
+
 def outcomeToJson : Outcome → Json
   | .rejected => Json.arr #[Json.str "rejected"]
-  | .finished n last app => Json.arr #[Json.str "finished", num n, num last, num app.startingId, num app.repCount]
+  | .finished n last app => Json.arr #[Json.str "finished", num n, num last, optNum app.startingId, num app.repCount]
   | .noProgress n last => Json.arr #[Json.str "noProgress", num n, num last]
   | .outOfFuel n => Json.arr #[Json.str "outOfFuel", num n]
 
@@ -38,12 +43,15 @@ def handle (m : String) (j : Json) : Except String Json := do
   | "c07.boundary" =>
     let c ← getCrit j
     let cont ← getCont j
-    let app : App := ⟨← getNat j "sid", ← getNat j "rc"⟩
+    let sid ← match optField j "sid" with
+      | none => pure none
+      | some v => do pure (some (← v.getNat?))
+    let app : App := ⟨sid, ← getNat j "rc"⟩
     let last ← getNat j "last"
     match boundary c (startId cont) app last with
     | none => pure (Json.arr #[Json.str "error"])
     | some (app', fin) =>
-      pure (Json.arr #[Json.str (if fin then "fin" else "cont"), num app'.startingId, num app'.repCount])
+      pure (Json.arr #[Json.str (if fin then "fin" else "cont"), optNum app'.startingId, num app'.repCount])
   | _ => throw s!"unknown method {m}"
 
 end SnowModel.Drv.C07
